@@ -9,7 +9,9 @@ CFG = {
              "Exhaustive part: every name of length <= 4 over {c o n m 1 . space N _ / E-acute sparkling-heart} x 2 affix pairs x {accepted at once, one clash}. "
              "Random part: per-case alphabets (printable ASCII with all 14 illegal characters, clash-prone a/A/_/./space, 2/3/4-byte characters, non-ASCII upper case "
              "incl. Other_Uppercase and letters whose lower case has another byte length, combining marks, reserved words with case/dot variants), escaped length "
-             "peaked at 238..261 bytes with multi-byte characters and period/space runs straddling the cuts; colliding pairs of different user names; histories. "
+             "peaked at 238..261 bytes with multi-byte characters and period/space runs straddling the cuts; colliding pairs of different user names; histories; "
+             "period/space runs of 236..252 characters followed by one 1..4-byte character (byte-exact guard of the layer prefix); every name of length <= 4 over {a A Sigma sigma .} containing a capital sigma "
+             "(accepted at once, one clash, taken-set = its own lower-casing, taken-set = the other lower-case sigma). "
              "Compared: the returned string AND every string the closure was called with (already lower-cased). Oracle on norad's own result: the seven predicates "
              "of Spec/C07.lean. non-trivial = the model escaped a character, inserted the reserved-word underscore, clipped, replaced a trailing run or needed a counter; distinct by input tokens"),
     "exhaustive": {"quick": True, "thorough": True},
@@ -17,7 +19,7 @@ CFG = {
     "timeout": {"quick": 600, "thorough": 7200},
     "trusted_base": COMMON_TRUST + [
         "Unicode tables are parameters: U = char::is_uppercase and lower = str::to_lowercase. Theorems hold for every lower and every U (not_reserved needs U true on ASCII A-Z). "
-        "The harness sends is_uppercase and the per-character to_lowercase of every character used; names on which str::to_lowercase is not the per-character map (capital sigma) are not generated",
+        "The harness sends is_uppercase and the per-character to_lowercase of every character used. str::to_lowercase is the per-character map except for capital sigma (context-sensitive final sigma): for names with capital sigma the driver instantiates lower from the whole-string lower-casings the closure really saw (echoed on the line), accepted as a lowering when it equals the per-character one up to the two lower-case sigmas",
         "the caller's FnMut closure is modelled as a function of (call number, string); a closure with other hidden state is covered by the theorems (any accept : Nat -> Str -> Bool) but not by the correspondence",
         "std::path::PathBuf::from(String) keeps the string (the harness reads it back with to_str)",
     ],
